@@ -27,6 +27,9 @@ func crashPoints(t *testing.T, backend sim.Backend) {
 			if o.Hung != "" {
 				t.Fatalf("VERIF-INFRA: %s\n  crash=%s@%d\n  scenario: %s", o.Hung, mode, idx, p)
 			}
+			if o.Void != "" {
+				t.Skip("void case: " + o.Void)
+			}
 			if o.Infra != "" {
 				t.Fatalf("VERIF-INFRA: %s | crash=%s@%d | %s", o.Infra, mode, idx, p)
 			}
